@@ -1660,6 +1660,8 @@ fn gen_logs(rec: &mut Rec, rng: &mut Rng, cases: u64, thorough: bool) {
             if rng.chance(1, 3) {
                 rec.op(&format!("logreq {}", len));
                 rec.op(&format!("logcopy {} {}", len, seed));
+            } else if len < 5000 && rng.chance(1, 8) {
+                rec.op(&format!("logunwind {} {}", len, seed));
             } else {
                 rec.op(&format!("log {} {}", len, seed));
             }
@@ -2054,6 +2056,8 @@ fn gen_deint(rec: &mut Rec, rng: &mut Rng, random: u64) {
 // ---------------------------------------------------------------------------------- interning
 
 fn gen_intern(rec: &mut Rec, rng: &mut Rng, cases: u64) {
+    // lookups by one id in objects where the name sits at different positions, once and twice
+    lookup_position_cases(rec, "c12");
     // many cached handles on one thread, loaded round after round in different orders: whatever the cache is
     // (a map, a table with fewer slots than handles), every handle answers the id it answered the first time
     for (label, n) in [("cached", if cases > 1000 { 5000usize } else { 700 }), ("cacheds", 300)] {
@@ -2633,6 +2637,19 @@ fn gen_threads(rec: &mut Rec, rng: &mut Rng, cases: u64, thorough: bool) {
             rec.bump("panic-hook-across-threads");
             let obs = run_schedule(rec, &scripts, &sched);
             check_solo(rec, &scripts, &obs, "a recovered panic after another thread called init_panic_handler");
+        }
+    }
+    // one thread makes a provider call that panics (an interned id it never got; caught by its caller): the other
+    // thread's invocation goes on as if alone
+    {
+        let a = vec!["init c0".to_string(), format!("intern {}", hex0(b"k")), "w istr 4242".to_string(), "w null".to_string(), "fin".to_string()];
+        let b = vec!["init c0".to_string(), "w arr 2".to_string(), "w i32 1".to_string(), "log 9 3".to_string(), "w i32 2".to_string(), "w endarr".to_string(), "fin".to_string(), "logs?".to_string()];
+        let scripts = vec![a, b];
+        for sched in [vec![1usize, 1, 1, 0, 0, 0, 1, 1, 0, 0, 1, 1, 1], vec![0, 0, 1, 1, 0, 1, 1, 1, 0, 0, 1, 1, 1]] {
+            rec.case("c14");
+            rec.bump("panicking-call-on-another-thread");
+            let obs = run_schedule(rec, &scripts, &sched);
+            check_solo(rec, &scripts, &obs, "another thread made a provider call that panics");
         }
     }
     // long values (their length is not in the handle: every query goes back to the provider) held by A while
